@@ -1,8 +1,9 @@
 (* Extraction of the executable model (which calls the GENERATED GetVertices / Ceil). ExtrOcamlBasic only. *)
 From Coq Require Import ZArith List Extraction ExtrOcamlBasic.
 From MomoCommon Require Import GenPrelude.
-From C18 Require Gen_Vertices Gen_Ceil Model.
+From C18 Require Gen_Vertices Gen_Ceil Model RawLife.
 Separate Extraction
   Gen_Vertices.GetVertices Gen_Ceil.Ceil
   List.filter (* lib/zutil.ml says List.filter, and the extracted List.ml shadows OCaml's *)
-  Model.init Model.add Model.after Model.get_offset Model.contains Model.vertices.
+  Model.init Model.add Model.after Model.get_offset Model.contains Model.vertices
+  RawLife.create_raw RawLife.destroy_raw.
